@@ -85,6 +85,12 @@ func judgeBatch(cs *BatchCase, o *BatchObs) []scen.Finding {
 	if !cancelled && !cs.PostFail && !o.ErrNil {
 		add("C06", "run-failed-without-cancellation:"+cc, "the batch's prep succeeded, the context was never cancelled and post does not fail, yet the run returned %q (post calls: %d) — item failures belong into the result slots (n=%d c=%d %s, item errors wrap a context error: %v)", o.ErrText, o.PostCalls, n, cs.C, mode, cs.CtxLike)
 	}
+	if o.PostCalls > 1 {
+		add("C06", "post-twice:"+cc, "post was called %d times in one run (n=%d c=%d %s, cancelled=%v)", o.PostCalls, n, cs.C, mode, cancelled)
+		if cancelled {
+			add("C11", "post-twice:"+cc, "cancelled batch: post was called %d times (it is called exactly once, or not at all when the run returns the context's error)", o.PostCalls)
+		}
+	}
 	// ---------------------------------------------------------------- C06: post once, after settlement, positional
 	if o.ErrNil {
 		if o.PostCalls != 1 {
